@@ -102,6 +102,12 @@ func (lm *ListenerMux) Start() {
 					atomic.AddInt32(&lm.onlineA, -1)
 					listenerB.chEvent <- event{err: nil, conn: c}
 				}
+				if lm.shutdown {
+					// Stop may already have drained the queues: whoever
+					// comes last closes what is left.
+					listenerA.closeQueued()
+					listenerB.closeQueued()
+				}
 			}
 		}(k, v.a, v.b)
 	}
@@ -121,6 +127,11 @@ func (lm *ListenerMux) Stop() {
 		_ = ab.b.Close()
 	}
 	close(lm.chClose)
+	// connections that were dispatched but never accepted have no owner.
+	for _, ab := range lm.listeners {
+		ab.a.closeQueued()
+		ab.b.closeQueued()
+	}
 }
 
 // DecreaseOnlineA decreases the online num of ChanListener A.
@@ -147,6 +158,22 @@ func (l *ChanListener) Accept() (net.Conn, error) {
 		return e.conn, e.err
 	case <-l.chClose:
 		return nil, net.ErrClosed
+	}
+}
+
+// closeQueued closes the connections that are still waiting to be accepted.
+//
+//go:norace
+func (l *ChanListener) closeQueued() {
+	for {
+		select {
+		case e := <-l.chEvent:
+			if e.conn != nil {
+				_ = e.conn.Close()
+			}
+		default:
+			return
+		}
 	}
 }
 
